@@ -8,9 +8,11 @@ import (
 	"encoding/json"
 	"fmt"
 	"os"
+	"os/exec"
 	"path/filepath"
 	"sort"
 	"strings"
+	"syscall"
 	"time"
 )
 
@@ -269,6 +271,23 @@ func loadFindings(root string) ([]Finding, error) {
 	return fs, nil
 }
 
+// ensureDiskSpace empties the Go build cache when the file system is nearly full: every check
+// compiles hundreds of generated parser packages, the cache keeps all of them (it grew to 135
+// GB in one day of development) and a full disk turns into compile failures of the batch.
+func ensureDiskSpace(root string) {
+	var st syscall.Statfs_t
+	if err := syscall.Statfs(root, &st); err != nil {
+		return
+	}
+	free := st.Bavail * uint64(st.Bsize) >> 30
+	if free >= 20 {
+		return
+	}
+	fmt.Fprintf(os.Stderr, "vcheck: only %d GB free: emptying the Go build cache\n", free)
+	cmd := exec.Command("go", "clean", "-cache")
+	cmd.Run()
+}
+
 // Main runs one check and returns the exit status.
 func Main(o Options) int {
 	root := findRoot()
@@ -295,6 +314,7 @@ func Main(o Options) int {
 		fmt.Fprintln(os.Stderr, "vcheck:", err)
 		return 2
 	}
+	ensureDiskSpace(root)
 	work := filepath.Join(root, "work", fmt.Sprintf("%s-%s-%d", o.Property, o.Tier, os.Getpid()))
 	os.RemoveAll(work)
 	if err := os.MkdirAll(work, 0o755); err != nil {
